@@ -507,6 +507,8 @@ def gen_mem(r, tier):
     k = r.random()
     if k < 0.5:
         init = [r.getrandbits(width) for _ in range(depth)]
+        if r.random() < 0.2:        # signed tables: negative values stand for their two's complement pattern
+            init = [v - (1 << width) if v >> (width - 1) else v for v in init]
     elif k < 0.75:
         init = [r.getrandbits(width) for _ in range(r.randint(1, depth))]
     two = r.random() < 0.35
